@@ -76,9 +76,14 @@ def short_tb():
 
 def call(fn, *args):
     """Runs a library call; returns (result, None) or (None, exception)"""
+    from vf import worker
+
     try:
         return fn(*args), None
     except Exception as exc:  # library exceptions are observations, not harness errors
+        if worker.ALARM["fired"]:
+            # the watchdog interrupted the library (numpy may wrap it into a SystemError)
+            raise worker.CaseTimeout()
         return None, exc
 
 
